@@ -18,6 +18,7 @@
 #pragma once
 #include <functional>
 #include <pthread.h>
+#include <sys/prctl.h>
 #include <sys/resource.h>
 #include <sys/wait.h>
 #include <unistd.h>
@@ -46,6 +47,7 @@ namespace vf
         pid_t pid = fork();
         if (pid == 0)
         {
+            prctl(PR_SET_PDEATHSIG, SIGKILL); // never outlive the worker that forked us
             struct rlimit rl = {(rlim_t)cpu_limit_s, (rlim_t)cpu_limit_s + 1};
             setrlimit(RLIMIT_CPU, &rl); // SIGXCPU ends a spinning child
             if (prelude)
